@@ -33,7 +33,7 @@ func (g *dgen) n(k int) int {
 func (g *dgen) p(pct int) bool { return g.n(100) < pct }
 
 var strAlpha = []string{`"`, `\`, `/`, `*`, `'`, "\n", "a", "b", " ", "}", "{", ",", ":", "[", "]", "é", "//", "/*", "*/", "\t", "0", "\\\"", "\r"}
-var cmtAlpha = []string{`"`, `\`, `/`, `*`, `'`, "a", "b", " ", "}", "{", ",", ":", "//", "/*", `\"`, "x", "\t", "* /", "'"}
+var cmtAlpha = []string{`"`, `\`, `/`, `*`, `'`, "a", "b", " ", "}", "{", ",", ":", "//", "/*", `\"`, "x", "\t", "* /", "'", "\r", "**"}
 
 type doc struct {
 	g        *dgen
@@ -331,6 +331,33 @@ func (s *splitReader) Read(b []byte) (int, error) {
 	return s.p.Read(b)
 }
 
+// readAllWith drains r with caller buffers of tape-chosen sizes (1 byte .. 8 KiB).
+func readAllWith(r io.Reader, tape *kernel.Tape, hint int) ([]byte, error) {
+	var out []byte
+	sizes := []int{4096, 1, 2, 7, 64, 512, 8192}
+	if hint > 200000 {
+		sizes = []int{4096, 8192, 65536}
+	}
+	for zero := 0; ; {
+		buf := make([]byte, sizes[tape.Next(len(sizes))])
+		n, err := r.Read(buf)
+		out = append(out, buf[:n]...)
+		if err == io.EOF {
+			return out, nil
+		}
+		if err != nil {
+			return out, err
+		}
+		if n == 0 {
+			if zero++; zero > 100 {
+				return out, io.ErrNoProgress
+			}
+		} else {
+			zero = 0
+		}
+	}
+}
+
 func errClass(err error) string {
 	s := err.Error()
 	for _, c := range []string{"token too long", "unexpected EOF", "comment not match", "invalid character", "unexpected end of JSON", "cannot unmarshal"} {
@@ -436,7 +463,7 @@ func run(p *kernel.Plan) (res *kernel.Result) {
 	// A document without comments passes through byte for byte.
 	tape2 := kernel.NewTape(p)
 	r2, _ := mkReader(p, tape2, und)
-	raw, err := io.ReadAll(ojson.NewJsonPlusReader(r2))
+	raw, err := readAllWith(ojson.NewJsonPlusReader(r2), tape2, len(und))
 	if err != nil {
 		return res.Fail("C17/passthrough-error:"+errClass(err), "reading a comment-free document failed: %v\ninput=%s", err, clip(und))
 	}
